@@ -85,7 +85,10 @@ func genQuery(r *Rng, m *qMeta) []string {
 	G := m.Groups
 	small := !m.Big
 	for {
-		switch r.Intn(43) {
+		switch r.Intn(45) {
+		case 43, 44:
+			on := r.PickS("a.g = b.g", "a.g = b.g AND a.v > b.w", "a.id % 7 = b.id % 7")
+			return []string{fmt.Sprintf("SELECT a.id, b.id FROM a FULL OUTER JOIN b ON %s;", on), fmt.Sprintf("SELECT COUNT(*) FROM a RIGHT OUTER JOIN b ON %s;", on)}
 		case 39, 40:
 			// built-in functions of every family evaluated by several workers
 			return []string{fmt.Sprintf("SELECT id, %s FROM a;", exprList(r, r.Range(3, 7)))}
@@ -134,8 +137,9 @@ func genQuery(r *Rng, m *qMeta) []string {
 		case 4:
 			return []string{fmt.Sprintf("SELECT a.id, b.id, b.w FROM a INNER JOIN b ON a.g = b.g AND a.id < b.id WHERE %s;", genCond(r, "a", G))}
 		case 5:
-			dir := r.PickS("LEFT", "RIGHT", "FULL")
-			return []string{fmt.Sprintf("SELECT a.id, a.v, b.id, b.w FROM a %s OUTER JOIN b ON a.id = b.id;", dir)}
+			dir := r.PickS("LEFT", "RIGHT", "FULL", "FULL")
+			on := r.PickS("a.id = b.id", "a.g = b.g", "a.g = b.g AND a.v > b.w")
+			return []string{fmt.Sprintf("SELECT a.id, a.v, b.id, b.w FROM a %s OUTER JOIN b ON %s;", dir, on)}
 		case 6:
 			op := r.PickS("UNION", "UNION ALL", "EXCEPT", "EXCEPT ALL", "INTERSECT", "INTERSECT ALL")
 			return []string{fmt.Sprintf("SELECT id, g FROM a %s SELECT id, g FROM b;", op)}
